@@ -158,7 +158,7 @@ var stepKinds = []string{
 	"fetch", "fetch", "fetch", "fetch",
 	"answer", "answer", "answer", "answer", "answer", "answer",
 	"late", "release", "dup", "unrequested", "foreign", "corrupt", "corrupt",
-	"commit", "commit", "interrupt",
+	"commit", "commit", "interrupt", "commitfail", "probe", "probe",
 	"timeout", "emptyresp",
 }
 
@@ -275,6 +275,8 @@ type target struct {
 	tk     types.TrieKind
 	reach  map[common.Hash]bool
 	verify func(dst *youdb.MemDatabase, complete map[common.Hash]bool) *violation
+	// verifyLive reads the content through a given (long-lived) state database
+	verifyLive func(sdb state.Database, complete map[common.Hash]bool) *violation
 }
 
 type source struct {
@@ -445,6 +447,9 @@ func buildTrieSource(c Case) (*source, *violation) {
 		want := v.model
 		root := v.root
 		t.verify = func(dst *youdb.MemDatabase, _ map[common.Hash]bool) *violation { return verifyTrie(dst, root, want) }
+		t.verifyLive = func(sdb state.Database, _ map[common.Hash]bool) *violation {
+			return verifyTrieIn(sdb.TrieDB(), root, want)
+		}
 		s.targets = append(s.targets, t)
 		if len(want) == 0 {
 			s.labels["empty-trie"] = true
@@ -457,7 +462,11 @@ func buildTrieSource(c Case) (*source, *violation) {
 }
 
 func verifyTrie(dst *youdb.MemDatabase, root common.Hash, want map[string][]byte) *violation {
-	tr, err := trie.New(root, trie.NewDatabase(dst))
+	return verifyTrieIn(trie.NewDatabase(dst), root, want)
+}
+
+func verifyTrieIn(tdb *trie.Database, root common.Hash, want map[string][]byte) *violation {
+	tr, err := trie.New(root, tdb)
 	if err != nil {
 		return vio("incomplete-reported-complete", "opening synced root %x on the destination failed: %v", root, err)
 	}
@@ -704,7 +713,16 @@ func buildStateSource(c Case) (*source, *violation) {
 					whole = false
 				}
 			}
-			return verifyState(dst, r, m, w, whole)
+			return verifyState(state.NewDatabase(dst), r, m, w, whole)
+		}
+		t.verifyLive = func(sdb state.Database, complete map[common.Hash]bool) *violation {
+			whole := true
+			for _, x := range r {
+				if x != emptyRoot && x != (common.Hash{}) && !complete[x] {
+					whole = false
+				}
+			}
+			return verifyState(sdb, r, m, w, whole)
 		}
 		s.targets = append(s.targets, t)
 	}
@@ -738,10 +756,10 @@ func buildStateSource(c Case) (*source, *violation) {
 
 // verifyState reads the synced data through the real StateDB on a fresh database.
 // which: the root just completed; whole: all three roots of the version are complete.
-func verifyState(dst *youdb.MemDatabase, r [3]common.Hash, m *mstate, which int, whole bool) *violation {
+func verifyState(sdb state.Database, r [3]common.Hash, m *mstate, which int, whole bool) *violation {
 	if which != 0 && !whole {
 		// a validator / staking trie alone: walk it
-		tr, err := trie.New(r[which], trie.NewDatabase(dst))
+		tr, err := trie.New(r[which], sdb.TrieDB())
 		if err != nil {
 			return vio("incomplete-reported-complete", "opening synced root %x failed: %v", r[which], err)
 		}
@@ -757,7 +775,7 @@ func verifyState(dst *youdb.MemDatabase, r [3]common.Hash, m *mstate, which int,
 	if whole {
 		valRoot, stakingRoot = r[1], r[2]
 	}
-	st, err := state.New(r[0], valRoot, stakingRoot, state.NewDatabase(dst))
+	st, err := state.New(r[0], valRoot, stakingRoot, sdb)
 	if err != nil {
 		return vio("incomplete-reported-complete", "state.New on the synced roots failed: %v", err)
 	}
@@ -850,6 +868,9 @@ type driver struct {
 	c         Case
 	src       *source
 	dst       *youdb.MemDatabase
+	fdb       *faultDB       // the destination as the sync sees it (can refuse a Put into a write batch)
+	live      state.Database // ONE long-lived state database over the destination disk, created before any sync (as BlockChain.stateCache is)
+	all       []common.Hash  // every hash of the source, sorted (probe targets)
 	t         *target
 	sched     *trie.Sync
 	ts        *downloader.VerifTrieSync
@@ -868,13 +889,65 @@ type driver struct {
 	activeFor map[string][]common.Hash
 }
 
+// init prepares what lives as long as the case: the fault-injecting view of the
+// destination and the long-lived state database over it.
+func (d *driver) init() {
+	d.fdb = &faultDB{MemDatabase: d.dst}
+	d.live = state.NewDatabase(d.dst)
+	var hs []string
+	for h := range d.src.kinds {
+		hs = append(hs, string(h[:]))
+	}
+	sort.Strings(hs)
+	for _, k := range hs {
+		d.all = append(d.all, common.BytesToHash([]byte(k)))
+	}
+}
+
+// probe looks n source hashes up through the long-lived database, as a node serving
+// GetNodeData to its own peers (or reading code / delegation lists) does - whether or
+// not the sync has delivered them yet. What it returns must agree with the disk.
+func (d *driver) probe(n, sel int) *violation {
+	if len(d.all) == 0 {
+		return nil
+	}
+	if n > len(d.all) {
+		n = len(d.all)
+	}
+	for j := 0; j < n; j++ {
+		h := d.all[(sel+j*5)%len(d.all)]
+		if v := d.lookup(h, "probe"); v != nil {
+			return v
+		}
+	}
+	if n > 0 {
+		d.labels["probed-through-long-lived-db"] = true
+	}
+	return nil
+}
+
+func (d *driver) lookup(h common.Hash, when string) *violation {
+	got, err := d.live.TrieDB().Node(h)
+	disk, derr := d.dst.Get(h[:])
+	switch {
+	case derr != nil || len(disk) == 0:
+		if err == nil && len(got) > 0 {
+			return vio("foreign-data-written", "%s: the long-lived database returns a blob for %x which is not on disk", when, h)
+		}
+		d.labels["probe-miss-before-delivery"] = true
+	case err != nil || !bytes.Equal(got, disk):
+		return vio("stale-lookup-after-sync", "%s: %x is on the destination disk, but Node() of the state database that was opened before the sync returns %x... (err=%v): the synced content cannot be read through the running node's database", when, h, head(got), err)
+	}
+	return nil
+}
+
 func (d *driver) newSync() {
 	if d.t.kind == kindState {
-		d.sched = state.NewStateSync(d.t.root, d.dst)
+		d.sched = state.NewStateSync(d.t.root, d.fdb)
 	} else {
-		d.sched = trie.NewSync(d.t.root, d.dst, nil)
+		d.sched = trie.NewSync(d.t.root, d.fdb, nil)
 	}
-	d.ts = downloader.VerifNewTrieSync(d.t.tk, d.dst, d.sched, d.peers)
+	d.ts = downloader.VerifNewTrieSync(d.t.tk, d.fdb, d.sched, d.peers)
 	d.outstanding, d.held = nil, nil
 	d.accepted, d.requested = map[common.Hash]bool{}, map[common.Hash]bool{}
 	d.activeFor = map[string][]common.Hash{}
@@ -949,6 +1022,21 @@ func (d *driver) complete(when string) *violation {
 	if v := d.t.verify(d.dst, d.completed); v != nil {
 		v.msg = when + ": " + d.t.name + ": " + v.msg
 		return v
+	}
+	// the same through the database instance that has been open since before the sync
+	for _, k := range hs {
+		if v := d.lookup(common.BytesToHash([]byte(k)), when+": "+d.t.name+" complete"); v != nil {
+			return v
+		}
+	}
+	if d.t.verifyLive != nil {
+		if v := d.t.verifyLive(d.live, d.completed); v != nil {
+			v.msg = when + ": " + d.t.name + " (read through the long-lived state database): " + v.msg
+			if v.class == "content-mismatch" || v.class == "incomplete-reported-complete" {
+				v.class = "stale-lookup-after-sync"
+			}
+			return v
+		}
 	}
 	return nil
 }
@@ -1356,6 +1444,13 @@ func runCase(c Case) kit.Result {
 		}
 		return kit.Fail(v.class, "%s", v.msg)
 	}
+	d.init()
+	if len(c.Steps) > 0 && c.Steps[0].Kind == "probe" {
+		// (a probe before any sync has started: every lookup misses)
+		if v := d.probe(len(d.all), 0); v != nil {
+			return fail(v)
+		}
+	}
 	step := 0
 	deep := false
 	for ti, t := range src.targets {
@@ -1393,6 +1488,27 @@ func runCase(c Case) kit.Result {
 				}
 				d.labels["mid-commit"] = true
 				if v := d.closure(when); v != nil {
+					return fail(v)
+				}
+			case "probe":
+				if v := d.probe(1+s.N%4, s.M); v != nil {
+					return fail(v)
+				}
+			case "commitfail":
+				// a flush whose write batch refuses its k-th entry (size limit, I/O error): the
+				// flush fails, the batch is dropped, the sync aborts - and, as trieSync.loop's
+				// deferred commit(true) does, flushes once more on its way out
+				d.fdb.armPut(1 + s.N%4)
+				err := d.ts.Commit(true)
+				d.fdb.armPut(0)
+				if err == nil {
+					if v := d.closure(when); v != nil {
+						return fail(v)
+					}
+					continue // the membatch had fewer entries: an ordinary flush
+				}
+				d.labels["flush-refused-mid-batch"] = true
+				if v := d.interrupt(when, "graceful", s); v != nil {
 					return fail(v)
 				}
 			case "interrupt":
@@ -1503,5 +1619,5 @@ var _ = kit.Register(kit.Prop[Case]{
 	Name: "SyncSchedule",
 	Rule: "sources: plain tries (0-24 prefix-heavy keys incl. mirrored subtrees, values 1-130 bytes so that nodes are embedded or hashed) in 1-3 versions sharing nodes, or whole states (1-12 accounts, shared code, shared storage sets, delegation blobs, 0-3 validators, staking records; 1-2 versions; state, validator and staking roots synced in generated order) - all into ONE destination database; responder schedule of 0-60 steps: fetch(batch), answer(count, single/batch), late/release, duplicate, unrequested node of the target, foreign node, corrupted blob (flip/truncate/append/empty), commit, interruption (graceful commit / crash / torn write) + fresh sync on the same destination, timeouts and empty responses (downloader loop mode); then an honest responder (or abandonment). non-trivial = the schedule contains a corruption, foreign/unrequested/duplicate blob, delay, timeout or interruption and some target has >= 4 nodes; distinct = FNV-64 of the case JSON",
 	Gen:  genCase, Run: runCase,
-	Quick: 2500, Thorough: 40000, Chunk: 500, MinNonTrivialPct: 35,
+	Quick: 4000, Thorough: 40000, Chunk: 500, MinNonTrivialPct: 35,
 })
